@@ -205,11 +205,8 @@ func (e *Env) tr(x *SExpr) Val {
 		var decl, guards []string
 		for _, v := range x.Vars {
 			n := "q!" + v.Name
-			if v.Type == "row8" || v.Type == "row64" {
-				et := types.Type(tByte)
-				if v.Type == "row64" {
-					et = tUint64
-				}
+			if isArrParam(v.Type) {
+				et := arrParamElem(v.Type)
 				ne.bound[v.Name] = Val{T: types.NewArray(et, 0), S: n}
 				decl = append(decl, fmt.Sprintf("(%s %s)", n, fc.sfSort(v.Type)))
 				continue
@@ -539,11 +536,11 @@ func (e *Env) binary(x *SExpr) Val {
 	// int mode: mathematical arithmetic
 	switch x.Name {
 	case "+", "-", "*":
-		return Val{T: a.T, S: sx(x.Name, a.S, b.S)}
+		return Val{T: a.T, S: sx(x.Name, a.S, b.S), Math: true}
 	case "/":
-		return Val{T: a.T, S: sx("div", a.S, b.S)}
+		return Val{T: a.T, S: sx("div", a.S, b.S), Math: true}
 	case "%":
-		return Val{T: a.T, S: sx("mod", a.S, b.S)}
+		return Val{T: a.T, S: sx("mod", a.S, b.S), Math: true}
 	}
 	s, err := m.binop(op, a.S, b.S, a.T, b.T, func(n, d string) {
 		if _, ok := fc.declared[n]; !ok {
@@ -734,11 +731,50 @@ func (e *Env) call(x *SExpr) Val {
 			}
 		}
 		return e.errorf("addr: no field %s", x.Args[0].Name)
-	case "row8of", "row64of":
+	case "fieldarr":
+		// fieldarr(T.f): the whole field array (ref -> value) in the current state
+		if x.Args[0].Op != "sel" || x.Args[0].Args[0].Op != "ident" {
+			return e.errorf("fieldarr(T.f)")
+		}
+		t := fc.g.namedType(x.Args[0].Args[0].Name)
+		if t == nil {
+			return e.errorf("fieldarr: unknown type %s", x.Args[0].Args[0].Name)
+		}
+		st, ok := t.Underlying().(*types.Struct)
+		if !ok {
+			return e.errorf("fieldarr: not a struct")
+		}
+		for i := 0; i < st.NumFields(); i++ {
+			if st.Field(i).Name() == x.Args[0].Name {
+				ft := st.Field(i).Type()
+				if kindOf(ft) != KInt && kindOf(ft) != KRef && kindOf(ft) != KBool {
+					return e.errorf("fieldarr: scalar field expected")
+				}
+				n, _ := fc.fieldArrName(t, i)
+				fc.regArr(n, "(Array Int "+m.scalarSort(ft)+")")
+				return Val{T: types.NewArray(ft, 0), S: e.state.get(n)}
+			}
+		}
+		return e.errorf("fieldarr: no such field")
+	case "ghostarr":
+		if x.Args[0].Op != "ident" {
+			return e.errorf("ghostarr(name)")
+		}
+		g, ok := fc.g.specs.Ghosts[x.Args[0].Name]
+		if !ok {
+			return e.errorf("unknown ghost %s", x.Args[0].Name)
+		}
+		name := "G!" + g.Name
+		fc.regArr(name, "(Array Int "+ghostSort(fc, g.Val)+")")
+		return Val{T: types.NewArray(ghostType(g.Val), 0), S: e.state.get(name)}
+	case "row8of", "row64of", "rowStrOf":
 		v := e.tr(x.Args[0])
 		et := types.Type(tByte)
 		if x.Name == "row64of" {
 			et = tUint64
+		}
+		if x.Name == "rowStrOf" {
+			et = tString
 		}
 		n := "E!" + typeKey(et)
 		fc.regArr(n, "(Array Int (Array "+m.idxSort()+" "+m.scalarSort(et)+"))")
@@ -788,6 +824,20 @@ func (e *Env) call(x *SExpr) Val {
 		}
 		return Val{T: tBool, S: sx(">", r, e.old.get("$top"))}
 	}
+	if pr, ok := fc.g.specs.Preds[x.Name]; ok {
+		if len(pr.Params) != len(x.Args) {
+			return e.errorf("%s: wrong number of arguments", x.Name)
+		}
+		ne := *e
+		ne.bound = map[string]Val{}
+		for k, v := range e.bound {
+			ne.bound[k] = v
+		}
+		for i, pn := range pr.Params {
+			ne.bound[pn] = e.tr(x.Args[i])
+		}
+		return ne.tr(pr.Body)
+	}
 	// conversion
 	if t := e.typeByName(x.Name); t != nil && len(x.Args) == 1 {
 		v := e.tr(x.Args[0])
@@ -796,6 +846,9 @@ func (e *Env) call(x *SExpr) Val {
 				return e.coerce(v, t)
 			}
 			if kindOf(v.T) == KInt {
+				if v.Math && m.mode == ModeInt {
+					return Val{T: t, S: m.wrap(v.S, t)} // exact for any mathematical value
+				}
 				return Val{T: t, S: m.convInt(v.S, v.T, t)}
 			}
 			if kindOf(v.T) == KRef && m.mode == ModeInt {
@@ -835,7 +888,7 @@ func (e *Env) call(x *SExpr) Val {
 		var as []string
 		for i, v := range vs {
 			pt := e.typeByName(sf.Params[i].Type)
-			if sf.Params[i].Type == "row8" || sf.Params[i].Type == "row64" {
+			if isArrParam(sf.Params[i].Type) {
 				as = append(as, v.S)
 				continue
 			}
@@ -856,7 +909,12 @@ func (e *Env) call(x *SExpr) Val {
 		if rt == nil {
 			return e.errorf("%s: unknown return type %s", x.Name, sf.Ret)
 		}
-		return Val{T: rt, S: sx(sym("sf!"+sf.Name), as...)}
+		app := sx(sym("sf!"+sf.Name), as...)
+		if kindOf(rt) == KInt && fc.m.mode == ModeInt && !strings.Contains(app, "q!") && !fc.ground["sfr:"+app] {
+			fc.ground["sfr:"+app] = true
+			fc.define(fc.m.inRange(app, rt)) // a spec function of integer type yields a value of that type
+		}
+		return Val{T: rt, S: app}
 	}
 	// pure Go function
 	if fn := fc.g.fnByName[x.Name]; fn != nil {
@@ -895,6 +953,12 @@ func (fc *FnCtx) sfSort(t string) string {
 		return "(Array " + fc.m.idxSort() + " " + fc.m.intSort(tByte) + ")"
 	case "row64":
 		return "(Array " + fc.m.idxSort() + " " + fc.m.intSort(tUint64) + ")"
+	case "rowref":
+		return "(Array " + fc.m.idxSort() + " Int)"
+	case "u64arr":
+		return "(Array Int " + fc.m.intSort(tUint64) + ")"
+	case "refarr", "setarr":
+		return "(Array Int Int)"
 	}
 	e := &Env{fc: fc, pkg: fc.g.pkg.Pkg}
 	ty := e.typeByName(t)
@@ -921,16 +985,26 @@ func (fc *FnCtx) useSpecFun(sf *SpecFun) {
 	}
 	if sf.Body == nil || (sf.ModeOf != "" && sf.ModeOf != modeName) {
 		fc.declareFun(name, sig)
+		if fc.m.mode == ModeInt && len(sf.Params) > 0 {
+			if e := (&Env{fc: fc, pkg: fc.g.pkg.Pkg}); true {
+				if rt := e.typeByName(sf.Ret); rt != nil && kindOf(rt) == KInt {
+					var args []string
+					for _, p := range sf.Params {
+						args = append(args, "q!"+p.Name)
+					}
+					app := sx(sym(name), args...)
+					fc.defineQ(fmt.Sprintf("(forall (%s) (! %s :pattern (%s)))", strings.Join(pds, " "), fc.m.inRange(app, rt), app))
+				}
+			}
+		}
 		return
 	}
 	fc.declared[name] = sig
 	// placeholder so recursive uses resolve
 	env := &Env{fc: fc, pkg: fc.g.pkg.Pkg, bound: map[string]Val{}, state: fc.entry, errs: &fc.errs}
 	for _, p := range sf.Params {
-		if p.Type == "row8" {
-			env.bound[p.Name] = Val{T: types.NewArray(tByte, 0), S: "q!" + p.Name}
-		} else if p.Type == "row64" {
-			env.bound[p.Name] = Val{T: types.NewArray(tUint64, 0), S: "q!" + p.Name}
+		if isArrParam(p.Type) {
+			env.bound[p.Name] = Val{T: types.NewArray(arrParamElem(p.Type), 0), S: "q!" + p.Name}
 		} else {
 			env.bound[p.Name] = Val{T: env.typeByName(p.Type), S: "q!" + p.Name}
 		}
@@ -1107,4 +1181,22 @@ func (e *Env) bufEmpty(ref string, bt types.Type) string {
 		}
 	}
 	return sAnd(cs...)
+}
+
+func isArrParam(t string) bool {
+	switch t {
+	case "row8", "row64", "rowref", "u64arr", "refarr", "setarr":
+		return true
+	}
+	return false
+}
+
+func arrParamElem(t string) types.Type {
+	switch t {
+	case "row8":
+		return tByte
+	case "row64", "u64arr":
+		return tUint64
+	}
+	return tRef
 }
